@@ -2,7 +2,7 @@
 SPECIFICATION TSpec
 CONSTANTS
   Locals = {"l1", "l2", "l3"}
-  Doms = {"d1", "d2"}
+  Doms = {"d1", "d2", "d3"}
   EnvLocals = {}
   RuleVars = {"lower"}
   EnvVars = {"lower"}
@@ -22,6 +22,9 @@ CONSTANTS
   Salts = {0}
   DefaultLast = TRUE
   BareMaps = TRUE
+  MaxScopeMods = 1
+  TableKinds = {"static"}
+  SenderCap = 99
   PrintExpected = FALSE
   OpenDevs = {}
 CHECK_DEADLOCK FALSE
